@@ -4,6 +4,7 @@ package generator
 
 import (
 	"go/token"
+	"os"
 	"strings"
 
 	"github.com/go-openapi/spec"
@@ -367,4 +368,48 @@ func VerifC01OperationRefs() {
 	}
 	vObserve("refs", found)
 	vAssert(found >= 2, "the planned operation lost the properties referring to the model")
+}
+
+func init() { vRegister("VerifC01EnumConsts", VerifC01EnumConsts) }
+
+var vEnumValues = []string{"<", "<=", "==", ">", "a", "A", "a b", "a-b", "a_b", "a.b", "a+b", "+1", "-1", "1", "#1", "ab", "Ab"}
+
+// what today's naming keeps of a value: letters and digits (case-insensitively) and the four
+// characters cleanupEnumVariant spells out
+func vEnumKey(v string) string {
+	out := ""
+	for i := 0; i < len(v); i++ {
+		c := v[i]
+		switch {
+		case c >= 'A' && c <= 'Z':
+			out += string(c + 'a' - 'A')
+		case c >= 'a' && c <= 'z', c >= '0' && c <= '9', c == '.', c == '+', c == '-', c == '#':
+			out += string(c)
+		}
+	}
+	return out
+}
+
+// C01 (naming): the constants generated for the values of a string enum
+// (schemavalidator.gotmpl: print $gotype (pascalize (cleanupEnumVariant .))) are distinct
+// identifiers for distinct values.
+func VerifC01EnumConsts() {
+	if !vSymbolic() {
+		b, err := os.ReadFile(vRepoDir() + "/templates/schemavalidator.gotmpl")
+		if err != nil || !strings.Contains(string(b), "print $gotype (pascalize (cleanupEnumVariant .))") {
+			panic("ORACLE-MISMATCH: schemavalidator.gotmpl no longer names enum constants with pascalize (cleanupEnumVariant .)")
+		}
+	}
+	v1 := vEnumValues[vChoice("value1", len(vEnumValues))]
+	v2 := vEnumValues[vChoice("value2", len(vEnumValues))]
+	vAssume(v1 != v2)
+	n1 := "Thing" + pascalize(cleanupEnumVariant(v1))
+	n2 := "Thing" + pascalize(cleanupEnumVariant(v2))
+	vCover("named")
+	vObserve("names", n1+" "+n2)
+	if vKnown("C01-P3", n1 == n2 && vEnumKey(v1) == vEnumKey(v2)) {
+		return
+	}
+	vAssert(token.IsIdentifier(n1) && token.IsIdentifier(n2), "an enum constant name is not a Go identifier")
+	vAssert(n1 != n2, "two values of one enum get the same constant name (the generated model does not compile)")
 }
